@@ -502,18 +502,14 @@ theorem inv_step (c : Cfg) (now : Int) (q q' : Q) (op : Op) (ch : Choice) (r : R
     · cases hstep
     · rename_i q1 hhk
       have hq1 : Inv q1 ∧ q1.lastSweep ≤ now := by
-        split at hhk
-        · have hs := sweep_inv (c := c) hinv hclock
-          have hp := prune_inv hhk hs.1
-          exact ⟨hp.1, by omega⟩
-        · cases hp : prune c now q ch.gone with
-          | none => rw [hp] at hhk; cases hhk
-          | some q0 =>
-            rw [hp] at hhk
-            simp only [Option.map_some, Option.some.injEq] at hhk
-            subst hhk
-            have h0 := prune_inv hp hinv
-            exact sweep_inv h0.1 (by omega)
+        cases hp : prune c now q ch.gone with
+        | none => rw [hp] at hhk; cases hhk
+        | some q0 =>
+          rw [hp] at hhk
+          simp only [Option.map_some, Option.some.injEq] at hhk
+          subst hhk
+          have h0 := prune_inv hp hinv
+          exact sweep_inv h0.1 (by omega)
       split at hstep
       · rename_i hlegal
         simp only [Option.some.injEq, Prod.mk.injEq] at hstep
